@@ -119,6 +119,8 @@ def apply_rules(text, opts, counts, recursor_file):
     run('R13', X.r13_let_chain)
     if opts.get('ordmin'):
         run('R14', X.r14_ord_min)
+    if opts.get('withmgr'):
+        run('R15', X.r15_with_manager, opts['withmgr'])
     return text
 
 
@@ -364,6 +366,10 @@ def emit_fn(u, it, opts, header_lines, spec_lines, canary, recursor_file):
         new_header = '\n'.join(header_lines)
         real = params_of(header)
         mine = params_of(new_header)
+        if opts.get('withmgr'):
+            # R15: `&self` becomes (manager, <this>): compare the remaining parameters only
+            real = [x for x in real if x not in ('self', '&self')]
+            mine = [x for x in mine if x not in ('manager', opts['withmgr'])]
         if real != mine:
             raise X.AnchorLost('%s: header drift for %s: real params %r, contract header %r' % (u.file, name, real, mine))
         header = new_header
